@@ -1277,7 +1277,10 @@ f_sort_array (void)
     {
     case T_NUMBER:
       {
-        tmp = builtin_sort_array (copy_array (tmp), (int)arg[1].u.number);
+        /* the comparison can raise: keep the copy on the stack so that it is released then */
+        push_refed_array (tmp = copy_array (tmp));
+        builtin_sort_array (tmp, (int)arg[1].u.number);
+        sp--;
         break;
       }
 
@@ -1298,9 +1301,11 @@ f_sort_array (void)
         sort_array_ftc = &ftc;
         process_efun_callback (1, &ftc, F_SORT_ARRAY);
 
-        tmp = copy_array (tmp);
+        /* the callback can raise: keep the copy on the stack so that it is released then */
+        push_refed_array (tmp = copy_array (tmp));
         quickSort ((char *) tmp->item, tmp->size, sizeof (tmp->item),
                    sort_array_cmp);
+        sp--;
         sort_array_ftc = old_ptr;
         break;
       }
